@@ -38,6 +38,8 @@ EXCEPTIONS = {
     "m_low_degrees": "empty on exit of compute_tree_boruvka (loop condition), hence empty on entry",
     "m_large_degrees": "drained to the low-degree list by the clean-up pass; planar degree bound",
     "m_edge_in_bucket": "cleared at the start of every clean-up pass before it is appended to",
+    "m_basins_uf.rank": "union-by-rank heuristic only: find() results are compared for equality, so the "
+                        "tree edges do not depend on the ranks (parent is re-initialised by resize())",
     "m_perf_boruvka": "diagnostic counter, reset before the main loop; does not influence results",
     "m_parent_basins": "only touched when m_keep_order is set (never: constant false)",
     "m_pass_stack": "only touched when m_keep_order is set (never: constant false)",
